@@ -1187,3 +1187,47 @@ def tip_action(ex, wl, wash_scheme):
     if wl.fields.get("diti_mode"):
         return SeqV.of("list", ["W;"])
     return SeqV.of("list", [lib.join_str_parts(ex, ["W", lib.format_value(ex, wash_scheme, ""), ";"])])
+
+
+# ----------------------------------------------------------------------------- transforms (C15)
+
+
+@spec
+def well_row(ex, w):
+    w = ops.to_abstract(w)
+    return ops.lift_raw(w.r)
+
+
+@spec
+def rowmajor(ex, a):
+    """elements in row-major (C) order: what ndarray.flatten() yields"""
+    if isinstance(a, Arr2V):
+        return lib.flatten(ex, a, "C").copy("list")
+    if isinstance(a, SeqV):
+        return a.copy("list")
+    if isinstance(a, lib.Arr0V):
+        return SeqV.of("list", [a.v])
+    return SeqV.of("list", [a])
+
+
+@spec
+def same_shape(ex, res, arg):
+    """the result array has the shape of numpy.array(arg)"""
+    def shape(v):
+        if isinstance(v, Arr2V):
+            return (lib._symint(v.rows), lib._symint(v.cols))
+        if isinstance(v, SeqV):
+            n = ops.seq_len(v)
+            return (n if isinstance(n, int) else Sym(n, "int"),)
+        return ()
+
+    sa, sb = shape(res), shape(arg)
+    if len(sa) != len(sb):
+        return False
+    r = True
+    for x, y in zip(sa, sb):
+        r = ops.and_(ex, r, ops.compare(ex, "==", x, y))
+    return r
+
+
+NS["wid"] = NS["well"]  # alias usable where the code under verification has a local called `well`
